@@ -312,6 +312,10 @@ func runC08(c *fw.Ctx) {
 	// (c) gotypes over generated multi-package programs
 	c08Generated(c)
 
+	// (d) whole directories through the import-resolving Decorator.ParseDir: every file is resolved
+	// against its own imports and must restore byte for byte
+	c08ParseDir(c)
+
 	// (b) gotypes over type-checked std packages
 	dirs := c08Dirs(c)
 	for i, dir := range dirs {
@@ -396,6 +400,99 @@ func c08Generated(c *fw.Ctx) {
 				return d.DecorateFile(af)
 			}, simple.New(names), nil)
 		}
+	}
+}
+
+func c08ParseDir(c *fw.Ctx) {
+	dirs := map[string]bool{}
+	for _, p := range corpus.Sample(c.Rand("parsedir-files"), c.Pick(120, 1500)) {
+		dirs[filepath.Dir(p)] = true
+	}
+	var dl []string
+	for d := range dirs {
+		dl = append(dl, d)
+	}
+	sort.Strings(dl)
+	if len(dl) > c.Pick(30, 400) {
+		dl = dl[:c.Pick(30, 400)]
+	}
+	for i, dir := range dl {
+		if !c.Mine(i) {
+			continue
+		}
+		ents, err := os.ReadDir(dir)
+		if err != nil {
+			continue
+		}
+		names := map[string]string{}
+		srcs := map[string][]byte{}
+		usable := true
+		for _, e := range ents {
+			if e.IsDir() || !strings.HasSuffix(e.Name(), ".go") {
+				continue
+			}
+			src := readFile(filepath.Join(dir, e.Name()))
+			if src == nil {
+				usable = false
+				break
+			}
+			nm, ok := corpus.ImportNames(src)
+			if !ok {
+				usable = false
+				break
+			}
+			for k, v := range nm {
+				if old, dup := names[k]; dup && old != v {
+					usable = false
+				}
+				names[k] = v
+			}
+			srcs[filepath.Join(dir, e.Name())] = src
+		}
+		if !usable || len(srcs) == 0 {
+			c.Count("parsedir_dirs_skipped", 1)
+			continue
+		}
+		id := "parsedir:" + corpus.Rel(dir)
+		c.Case(id, func() {
+			c.Observe("resolver_pairs", "goast+simple/ParseDir")
+			d := decorator.NewDecoratorWithImports(token.NewFileSet(), "example.com/self", goast.WithResolver(simple.New(names)))
+			var pkgs map[string]*dst.Package
+			var err error
+			if sig, detail := fw.Try(func() { pkgs, err = d.ParseDir(dir, nil, parser.ParseComments) }); sig != "" {
+				c.Violate("panic", sig, id+" [ParseDir]\n"+detail, dir)
+				return
+			}
+			if err != nil {
+				c.Count("inconclusive_decorator_resolver_refused:goast+simple/ParseDir", 1)
+				return
+			}
+			for _, pk := range pkgs {
+				for fn, df := range pk.Files {
+					src := srcs[fn]
+					if src == nil || !corpus.Canonical(src) || c01FailsAny(src) || len(textPredicates(src)) > 0 {
+						continue // classified by the per-file workloads
+					}
+					var buf bytes.Buffer
+					var rerr error
+					if sig, detail := fw.Try(func() {
+						rerr = decorator.NewRestorerWithImports("example.com/self", simple.New(names)).Fprint(&buf, df)
+					}); sig != "" {
+						c.Violate("panic", sig, id+" [ParseDir/restore]\n"+detail, string(src))
+						continue
+					}
+					if rerr != nil {
+						c.Violate("restore-error", "restore-error:goast+simple/ParseDir", id+": "+fn+": "+shortErr(rerr), string(src))
+						continue
+					}
+					c.Count("files:goast+simple/ParseDir", 1)
+					if !bytes.Equal(buf.Bytes(), src) {
+						c.Violate("not-transparent/goast+simple/ParseDir", "not-transparent:ParseDir", id+": "+fn+": "+obs.DiffContext(buf.Bytes(), src), string(src))
+					}
+				}
+			}
+			c.Nontrivial(id)
+		})
 	}
 }
 
@@ -652,14 +749,14 @@ func (t *T) m(a os.FileInfo, b ...fmt.Formatter) (r strings.Replacer, err error)
 // importZoo: small canonical files with unusual import sections.
 func importZoo() map[string]string {
 	return map[string]string{
-		"two-blank": "package p\n\nimport (\n\t\"fmt\"\n\t_ \"image/jpeg\"\n\t_ \"image/png\"\n)\n\nvar _ = fmt.Sprint\n",
+		"two-blank":              "package p\n\nimport (\n\t\"fmt\"\n\t_ \"image/jpeg\"\n\t_ \"image/png\"\n)\n\nvar _ = fmt.Sprint\n",
 		"three-blank-two-blocks": "package p\n\nimport (\n\t_ \"embed\"\n\t_ \"image/png\"\n)\n\nimport _ \"net/http/pprof\"\n\nvar x = 1\n",
-		"aliases": "package p\n\nimport (\n\tcrand \"crypto/rand\"\n\tf \"fmt\"\n\t\"math/rand\"\n)\n\nvar _ = f.Sprint(rand.Int(), crand.Reader)\n",
-		"own-name-alias": "package p\n\nimport fmt \"fmt\"\n\nvar _ = fmt.Sprint\n",
-		"groups-and-comments": "package p\n\nimport (\n\t\"fmt\" // std\n\t\"os\"\n\n\t// third party\n\t\"gopkg.in/yaml.v2\"\n\txlog \"x.com/y/log\"\n)\n\nvar _ = fmt.Sprint(os.Args, yaml.Marshal, xlog.Print)\n",
-		"cgo": "package p\n\n/*\n#include <stdio.h>\n*/\nimport \"C\"\n\nimport (\n\t\"fmt\"\n\t\"unsafe\"\n)\n\nvar _ = fmt.Sprint(C.int(1), unsafe.Sizeof(0))\n",
-		"single-lines": "package p\n\nimport \"fmt\"\nimport \"os\"\n\nvar _ = fmt.Sprint(os.Args)\n",
-		"blank-and-used": "package p\n\nimport (\n\t\"fmt\"\n\t_ \"image/png\"\n\t\"strings\"\n)\n\nfunc f() string {\n\treturn strings.ToUpper(fmt.\n\t\tSprint(1))\n}\n",
+		"aliases":                "package p\n\nimport (\n\tcrand \"crypto/rand\"\n\tf \"fmt\"\n\t\"math/rand\"\n)\n\nvar _ = f.Sprint(rand.Int(), crand.Reader)\n",
+		"own-name-alias":         "package p\n\nimport fmt \"fmt\"\n\nvar _ = fmt.Sprint\n",
+		"groups-and-comments":    "package p\n\nimport (\n\t\"fmt\" // std\n\t\"os\"\n\n\t// third party\n\t\"gopkg.in/yaml.v2\"\n\txlog \"x.com/y/log\"\n)\n\nvar _ = fmt.Sprint(os.Args, yaml.Marshal, xlog.Print)\n",
+		"cgo":                    "package p\n\n/*\n#include <stdio.h>\n*/\nimport \"C\"\n\nimport (\n\t\"fmt\"\n\t\"unsafe\"\n)\n\nvar _ = fmt.Sprint(C.int(1), unsafe.Sizeof(0))\n",
+		"single-lines":           "package p\n\nimport \"fmt\"\nimport \"os\"\n\nvar _ = fmt.Sprint(os.Args)\n",
+		"blank-and-used":         "package p\n\nimport (\n\t\"fmt\"\n\t_ \"image/png\"\n\t\"strings\"\n)\n\nfunc f() string {\n\treturn strings.ToUpper(fmt.\n\t\tSprint(1))\n}\n",
 	}
 }
 
